@@ -3393,11 +3393,20 @@ static void scan_globals(void) {
       continue;
     }
 
-    // Find another definition of the same identifier.
+    // Find another definition of the same identifier. Among several
+    // tentative definitions, the one that comes last in the list is kept.
     Obj *var2 = globals;
-    for (; var2; var2 = var2->next)
-      if (var != var2 && var2->is_definition && !strcmp(var->name, var2->name))
+    for (; var2; var2 = var2->next) {
+      if (var == var2) {
+        // Only non-tentative definitions count from here on.
+        for (var2 = var2->next; var2; var2 = var2->next)
+          if (var2->is_definition && !var2->is_tentative && !strcmp(var->name, var2->name))
+            break;
         break;
+      }
+      if (var2->is_definition && !strcmp(var->name, var2->name))
+        break;
+    }
 
     // If there's another definition, the tentative definition
     // is redundant
